@@ -96,7 +96,10 @@ type c05TRun struct {
 	books   bool              // Fails differed from the books
 	pending int               // host selected and not yet forwarded to (-1 none)
 	notes   []string
+	abort   int32 // set by the watchdog: the next Select / forward panics out of a loop that does not end
 }
+
+type c05Abort struct{}
 
 // tick maps a real offset to model ticks (half units) and checks the drift
 func (r *c05TRun) tick(d time.Duration) int {
@@ -115,6 +118,9 @@ type c05Up struct {
 
 func (u *c05Up) Select(req *http.Request) *proxy.UpstreamHost {
 	r := u.run
+	if atomic.LoadInt32(&r.abort) != 0 {
+		panic(c05Abort{})
+	}
 	now := time.Since(r.t0)
 	// the other requests let go of what they held during the previous iteration
 	for i, h := range r.hosts {
@@ -209,6 +215,9 @@ type c05Transport struct {
 
 func (t *c05Transport) RoundTrip(req *http.Request) (*http.Response, error) {
 	r := t.run
+	if atomic.LoadInt32(&r.abort) != 0 {
+		panic(c05Abort{})
+	}
 	now := time.Since(r.t0)
 	k := int((now + r.grid/2) / r.grid)
 	tk := r.tick(now)
@@ -345,9 +354,41 @@ func c05Timed(in *c05In, scale int) (Result, int) {
 	p := proxy.Proxy{Next: handlerFunc(func(w http.ResponseWriter, r *http.Request) (int, error) { return 404, nil }),
 		Upstreams: []proxy.Upstream{&c05Up{Upstream: ups[0], run: run}}}
 	rec := httptest.NewRecorder()
+	// watchdog: the model's bound on the request is try_duration + try_interval + longest forward
+	dmax := 0
+	for _, sc := range rt.Scripts {
+		for _, st := range append(append([]c05Step(nil), sc.Pre...), sc.Dflt) {
+			if st.D > dmax {
+				dmax = st.D
+			}
+		}
+	}
+	limit := 3*time.Duration(rt.TD2/2+rt.TI+dmax+4)*grid + 2*time.Second
+	var status, tEnd int
+	var serr error
+	hung, panicked := false, ""
+	done := make(chan struct{})
 	run.t0 = time.Now()
-	status, serr := p.ServeHTTP(rec, req)
-	tEnd := run.tick(time.Since(run.t0))
+	go func() {
+		defer close(done)
+		defer func() {
+			if x := recover(); x != nil {
+				if _, ok := x.(c05Abort); ok {
+					hung = true
+				} else {
+					panicked = fmt.Sprint(x)
+				}
+			}
+		}()
+		status, serr = p.ServeHTTP(rec, req)
+		tEnd = run.tick(time.Since(run.t0))
+	}()
+	select {
+	case <-done:
+	case <-time.After(limit):
+		atomic.StoreInt32(&run.abort, 1)
+		<-done
+	}
 	for i, h := range run.hosts {
 		if run.held[i] {
 			atomic.AddInt64(&h.Conns, -1)
@@ -369,6 +410,14 @@ func c05Timed(in *c05In, scale int) (Result, int) {
 	default:
 		out = "THang"
 		direct = fmt.Sprintf("Proxy.ServeHTTP returned status %d (recorder %d) err %v", status, rec.Code, serr)
+	}
+	if hung {
+		out = "THang"
+		direct = fmt.Sprintf("Proxy.ServeHTTP did not return within %v (try_duration %s): the retry loop does not end", limit, us(rt.TD2))
+		run.margin, run.books = false, false
+	} else if panicked != "" {
+		out = "THang"
+		direct = "Proxy.ServeHTTP panicked: " + panicked
 	}
 	for i, h := range run.hosts {
 		if c := atomic.LoadInt64(&h.Conns); c != 0 {
